@@ -148,7 +148,8 @@ def rule_window(check):
     check.floor(R, "recordings in add_literal", len(ins), 1)
     for n in ins:
         atoms = gate.atoms_at(a, n)
-        cmps = sorted((x[1], _side(x[2]), _side(x[3]), x[4]) for x in atoms if x[0] == "cmp")
+        FLIP = {"Gt": "Le", "Le": "Gt", "Lt": "Ge", "Ge": "Lt"}
+        cmps = sorted((x[1] if x[4] else FLIP[x[1]], _side(x[2]), _side(x[3]), True) for x in atoms if x[0] == "cmp")
         want = sorted([("Gt", "len(value)", "self.min_literal_length", True), ("Le", "len(value)", "self.max_literal_length", True)])
         others = [x for x in atoms if x[0] not in ("cmp", "closure") and not (x[0] == "call" and x[1] == "contains_key")]
         check.expect(cmps == want and not others, R, "%s/condition/%s" % (R, "set" if "Set<" in hir.peel(hir.call_args(n)[0]).get("ty", "") else "vec" if "Vec<" in hir.peel(hir.call_args(n)[0]).get("ty", "") else "map"), hir.loc(n), "recorded iff len > min && len <= max", "literal recorded under %s %s" % (cmps, [hir.describe(x[-1]) if isinstance(x[-1], dict) and "k" in x[-1] else x[:3] for x in others]))
